@@ -735,6 +735,17 @@ func threadIf(ifi *ssa.If, pred *ssa.BasicBlock) (taken bool, known bool) {
 		}
 		isNil, ok := nilness(v)
 		if !ok {
+			// the facts of the incoming edge may say it: `if err != nil { r = err; goto merge }`
+			t := Lin{Coef: map[string]int64{Term(v): 1}}
+			fs := edgeFacts_h2server(pred, ifi.Block())
+			switch {
+			case holds(fs, Atom{Kind: NE, L: t}, true):
+				isNil, ok = false, true
+			case holds(fs, Atom{Kind: EQ, L: t}, true):
+				isNil, ok = true, true
+			}
+		}
+		if !ok {
 			break
 		}
 		res := isNil == (x.Op == token.EQL)
@@ -754,6 +765,12 @@ func nilness(v ssa.Value) (isNil bool, known bool) {
 		return false, true
 	case *ssa.ChangeInterface:
 		return nilness(x.X)
+	case *ssa.UnOp:
+		// load of a package-level sentinel (var errX = errors.New(...)): assigned a
+		// non-nil value once, in the package initialiser, and never stored to again
+		if g, ok := x.X.(*ssa.Global); ok && x.Op == token.MUL && sentinelNonNil(g) {
+			return false, true
+		}
 	case *ssa.Call:
 		return callNilness(x, 0, 0)
 	case *ssa.Extract:
@@ -930,4 +947,80 @@ func Entry() Sel {
 		}
 		return []ssa.Instruction{fn.Blocks[0].Instrs[0]}
 	}}
+}
+
+var sentinelCache = map[*ssa.Global]bool{}
+
+// sentinelNonNil: the only store to g in its package is in the package
+// initialiser and stores a value that is certainly non-nil.
+func sentinelNonNil(g *ssa.Global) bool {
+	if v, ok := sentinelCache[g]; ok {
+		return v
+	}
+	sentinelCache[g] = false
+	if g.Pkg == nil {
+		return false
+	}
+	stores, good := 0, true
+	var scan func(fn *ssa.Function)
+	scan = func(fn *ssa.Function) {
+		for _, b := range fn.Blocks {
+			for _, in := range b.Instrs {
+				switch x := in.(type) {
+				case *ssa.Store:
+					if x.Addr != ssa.Value(g) {
+						continue
+					}
+					stores++
+					if fn.Name() != "init" || fn.Parent() != nil {
+						good = false
+						continue
+					}
+					nonNil := false
+					if isNil, known := nilness(x.Val); known && !isNil {
+						nonNil = true
+					} else if call, isCall := x.Val.(*ssa.Call); isCall {
+						n := CalleeName(&call.Call)
+						nonNil = n == "errors.New" || n == "fmt.Errorf"
+					}
+					if !nonNil {
+						good = false
+					}
+				default:
+					// the address escaping (passed or stored) would allow other writes
+					for _, op := range in.Operands(nil) {
+						if *op == ssa.Value(g) {
+							if u, isLoad := in.(*ssa.UnOp); !(isLoad && u.Op == token.MUL) {
+								good = false
+							}
+						}
+					}
+				}
+			}
+		}
+		for _, a := range fn.AnonFuncs {
+			scan(a)
+		}
+	}
+	for _, m := range g.Pkg.Members {
+		if fn, ok := m.(*ssa.Function); ok {
+			scan(fn)
+		}
+	}
+	// methods
+	for _, m := range g.Pkg.Members {
+		if t, ok := m.(*ssa.Type); ok {
+			for _, recv := range []types.Type{t.Type(), types.NewPointer(t.Type())} {
+				ms := g.Pkg.Prog.MethodSets.MethodSet(recv)
+				for i := 0; i < ms.Len(); i++ {
+					if fn := g.Pkg.Prog.MethodValue(ms.At(i)); fn != nil && fn.Pkg == g.Pkg && fn.Synthetic == "" {
+						scan(fn)
+					}
+				}
+			}
+		}
+	}
+	v := good && stores == 1
+	sentinelCache[g] = v
+	return v
 }
